@@ -61,10 +61,15 @@ class BlImm11Relocation(Relocation):
         imm11 = imm32 & 0x7FF
         imm10 = (imm32 >> 11) & 0x3FF
         s = (imm32 >> 24) & 0x1
+        # offset = SignExtend(S:I1:I2:imm10:imm11:'0'), J1 = NOT(I1 EOR S)
+        i1 = (imm32 >> 22) & 0x1
+        i2 = (imm32 >> 21) & 0x1
         bv = BitView(data, 0, 4)
         bv[0:10] = imm10
         bv[10:11] = s
         bv[16:27] = imm11
+        bv[27:28] = 1 ^ i2 ^ s  # J2
+        bv[29:30] = 1 ^ i1 ^ s  # J1
         return data
 
 
@@ -83,15 +88,14 @@ class BImm11Imm6Relocation(Relocation):
         imm32 = wrap_negative(offset >> 1, 32)
         imm11 = imm32 & 0x7FF
         imm6 = (imm32 >> 11) & 0x3F
-        s = (imm32 >> 17) & 0x1
-        # TODO: determine i1 and i2 better!
-        i1 = s
-        i2 = s
-        j1 = i1
-        j2 = i2
-        data[2] = imm11 & 0xFF
-        data[3] |= (imm11 >> 8) & 0x7
-        data[3] |= (j1 << 5) | (j2 << 3)
-        data[0] |= imm6
-        data[1] |= s << 2
+        # offset = SignExtend(S:J2:J1:imm6:imm11:'0')
+        j1 = (imm32 >> 17) & 0x1
+        j2 = (imm32 >> 18) & 0x1
+        s = (imm32 >> 19) & 0x1
+        bv = BitView(data, 0, 4)
+        bv[0:6] = imm6
+        bv[10:11] = s
+        bv[16:27] = imm11
+        bv[27:28] = j2
+        bv[29:30] = j1
         return data
